@@ -7,6 +7,7 @@ package main
 import (
 	"encoding/json"
 	"fmt"
+	"math"
 	"os"
 	"os/exec"
 	"path/filepath"
@@ -17,10 +18,11 @@ import (
 )
 
 type oq struct {
-	Kind string    `json:"kind"`
-	P    [3]string `json:"p"`
-	R    [4]string `json:"r"`
-	rep  func() map[string]interface{}
+	Kind        string    `json:"kind"`
+	P           [3]string `json:"p"`
+	R           [4]string `json:"r"`
+	rep         func() map[string]interface{}
+	capNearPole bool
 }
 
 var oracleQ []oq
@@ -29,13 +31,13 @@ const oracleMax = 14000
 
 var oracleKindCount = map[string]int{}
 
-func oracleQueue(kind string, p s2.Point, r s2.Rect, rep func() map[string]interface{}) {
+func oracleQueue(kind string, p s2.Point, r s2.Rect, capNearPole bool, rep func() map[string]interface{}) {
 	if len(oracleQ) >= oracleMax || r.IsEmpty() || oracleKindCount[kind] >= 2500 {
 		return
 	}
 	oracleKindCount[kind]++
 	h := func(f float64) string { return fmt.Sprintf("%x", f) }
-	oracleQ = append(oracleQ, oq{kind, [3]string{h(p.X), h(p.Y), h(p.Z)}, [4]string{h(r.Lat.Lo), h(r.Lat.Hi), h(r.Lng.Lo), h(r.Lng.Hi)}, rep})
+	oracleQ = append(oracleQ, oq{kind, [3]string{h(p.X), h(p.Y), h(p.Z)}, [4]string{h(r.Lat.Lo), h(r.Lat.Hi), h(r.Lng.Lo), h(r.Lng.Hi)}, rep, capNearPole})
 }
 
 const oracleScript = `
@@ -121,9 +123,22 @@ func oracleRun(c *vkit.Collector) {
 		if r[0] > 2*eps || r[1] > 4*eps {
 			m := oracleQ[i].rep()
 			m["true_lat_excess"], m["true_lng_excess"] = r[0], r[1]
-			k := oracleQ[i].Kind + ".true-latlng"
-			if r[0] > 3e-8 || r[1] > 3e-8 {
-				k += ".gross" // the known Cap.true-latlng class is the documented <= 1.5e-8 rad asin amplification
+			// same scheme as rectKind, for the exact latitude/longitude
+			coord := ".true-latlng"
+			if r[0] > 2*eps && !(r[1] > 4*eps) {
+				coord = ".true-lat"
+			} else if r[1] > 4*eps && !(r[0] > 2*eps) {
+				coord = ".true-lng"
+			}
+			e := math.Max(r[0], r[1])
+			k := oracleQ[i].Kind + coord
+			switch {
+			case e <= 2e-15:
+				k += "(<=2e-15)"
+			case oracleQ[i].Kind == "Cap" && coord == ".true-lng" && oracleQ[i].capNearPole && e <= 3e-8:
+				k += "(<=3e-8,cap-edge-within-1e-6-of-pole)"
+			default:
+				k += ".gross"
 			}
 			if oracleQ[i].Kind == "RectBounder.latBudget(near-pole)" {
 				k = oracleQ[i].Kind
